@@ -159,7 +159,12 @@ func pktWithAF(r *rand.Rand, a absAF, hasPayload bool) packet.Packet {
 	var p packet.Packet
 	r.Read(p[:])
 	p[0] = 0x47
-	p[3] = p[3]&0x0f | 0x20
+	// transport_scrambling_control stays as drawn (00, 10 or 11; the reserved 01 becomes 00)
+	tsc := p[3] & 0xc0
+	if tsc == 0x40 {
+		tsc = 0
+	}
+	p[3] = p[3]&0x0f | 0x20 | tsc
 	if hasPayload {
 		p[3] |= 0x10
 	}
